@@ -1,6 +1,6 @@
 (* C01 correspondence cases: what the harness' assembler and duke answered, compared with the model *)
 From Coq Require Export Uint63.
-From FB Require Export C01.Model C01.Pool C01.Resolve C01.Attr C01.ClassFile C01.Mutf8 Base.Run.
+From FB Require Export C01.Model C01.Pool C01.Resolve C01.Attr C01.ClassFile C01.Mutf8 C01.Witness Base.Run.
 
 Definition on_eqb (a b : option nat) : bool := opt_eqb Nat.eqb a b.
 
@@ -178,7 +178,13 @@ Inductive case :=
 | CHeader (mg minor major : N) (accepted : bool)
 | CUnknown (ctx : N) (attrs : list (str * bytes)) (reported : list (str * bytes))
 (* a whole class file (packed bytes) and the tree duke::read_class built from it, as a class description *)
-| CFile (file : bytes) (r : res class_desc).
+| CFile (file : bytes) (r : res class_desc)
+(* the bytes the harness holds of the example class (0) and of the witness classes of F13p (1), F13r (2), F13t (3):
+   they are the encodings of the structures of Witness.v *)
+| CWitness (k : N) (file : bytes)
+(* a damaged class file (truncated, a byte changed): where duke still builds a tree the model must build the same
+   one; where duke refuses, the model may accept (the validity checks of names and descriptors are not modelled) *)
+| CFileM (file : bytes) (r : res class_desc).
 
 Definition check (c : case) : bool :=
   match c with
@@ -190,4 +196,7 @@ Definition check (c : case) : bool :=
   | CUnknown ctx attrs reported =>
       list_eqb (pair_eqb str_eqb bytes_eqb) (unknown_of (known_ctx ctx) attrs) reported
   | CFile file r => res_eqb class_eqb (read_class true mutf8_dec file) r
+  | CFileM file r => match r with Ok _ => res_eqb class_eqb (read_class true mutf8_dec file) r | Err => true end
+  | CWitness k file =>
+      bytes_eqb (encode_class (match k with 0 => ex_class | 1 => w_f13p | 2 => w_f13r | _ => w_f13t end)) file
   end.
